@@ -1,4 +1,4 @@
-// Polynomial kinds (C11, C12): poly.ring, poly.calc, poly.access, poly.ctor, poly.div.
+// Polynomial kinds (C11, C12): poly.ring, poly.calc, poly.access, poly.ctor, poly.hist, poly.div, poly.divself.
 // Only the public API of ohsl::Polynomial is used (new/empty/quadratic/cubic, size, degree, index,
 // eval, is_zero, trim, derivative*, the operator impls, polydiv).  The printed streams are mirrored
 // by run_ring / run_calc / run_access / run_ctor / run_div of coq/Model/Poly.v.
@@ -35,6 +35,18 @@ fn guarded<F: FnOnce(&mut Out)>(out: &mut Out, f: F) {
             let cls = crate::classify(&msg);
             if cls == "harness" || cls == "ratovf" { panic!("{}", msg); }
             out.toks.push(format!("P{}", cls));
+        }
+    }
+}
+
+// outcome of polydiv: 0 q r | 1 (divide by zero polynomial) | 2 (exceeded maximum iterations) | 3 (any other Err: never expected)
+fn div_out<T: Elt>(r: Result<(Polynomial<T>, Polynomial<T>), &'static str>, out: &mut Out) {
+    match r {
+        Ok((q, r)) => { out.int(0); dump(&q, out); dump(&r, out); }
+        Err(msg) => {
+            if msg.contains("divide by zero") { out.int(1); }
+            else if msg.contains("maximum iterations") { out.int(2); }
+            else { out.int(3); }   // degree() of an empty polynomial
         }
     }
 }
@@ -102,14 +114,24 @@ pub fn run<T: Elt>(kind: &str, a: &mut Args, out: &mut Out) {
             let (su, sv) = (toks(&u), toks(&v));
             let r = u.polydiv(&v);
             check_same(&u, &su, "polydiv"); check_same(&v, &sv, "polydiv");
-            match r {
-                Ok((q, r)) => { out.int(0); dump(&q, out); dump(&r, out); }
-                Err(msg) => {
-                    if msg.contains("divide by zero") { out.int(1); }
-                    else if msg.contains("maximum iterations") { out.int(2); }
-                    else { out.int(3); }   // any other Err (degree() of an empty polynomial): never expected
-                }
+            div_out(r, out);
+            // dividend and divisor the SAME object: a shortcut keyed on pointer equality must agree with the general
+            // routine (in particular x.polydiv(&x) of the empty / all-zero polynomial is still the zero-divisor error)
+            for (w, nm) in [(&u, "u"), (&v, "v")] {
+                let (mut o1, mut o2) = (Out::new(), Out::new());
+                guarded(&mut o1, |o| div_out(w.polydiv(w), o));              // (a panic of the library is part of the outcome)
+                guarded(&mut o2, |o| div_out(w.polydiv(&w.clone()), o));
+                if o1.toks != o2.toks { panic!("harness: same-object and cloned-operand forms differ ({}.polydiv(&{}), dividend and divisor the same object)", nm, nm); }
             }
+            check_same(&u, &su, "polydiv (same object)"); check_same(&v, &sv, "polydiv (same object)");
+        }
+        // poly.divself <u>: u.polydiv(&u), dividend and divisor the SAME object; the stream of poly.div (model: run_div u u)
+        "poly.divself" => {
+            let u = poly::<T>(a);
+            let su = toks(&u);
+            let r = u.polydiv(&u);
+            check_same(&u, &su, "polydiv (same object)");
+            div_out(r, out);
         }
         _ => panic!("harness: unknown kind {}", kind),
     }
